@@ -5,6 +5,7 @@ import AcraModel.Keystore.RingLemmas
 import AcraModel.Keystore.V1Lemmas
 import AcraModel.Keystore.RefineV1Step
 import AcraModel.Keystore.RefineV2Step
+import AcraModel.Keystore.RefineCacheStep
 /-!
 # C06 — rotation keeps old data readable; destruction removes exactly the chosen key
 
@@ -253,6 +254,60 @@ theorem v2_ringless_counterexample :
     (Spec.runApi .v2 Spec.init [.cur pp0, .list]).2 = [.err, .files []] ∧
     (V2.init.run [.drot ss0 2, .all ss0, .list]).2 = [.err, .keys [], .err] ∧
     (Spec.runApi .v2 Spec.init [.drot ss0 2, .all ss0, .list]).2 = [.err, .err, .files []] := by decide +kernel
+
+/-! ## the v1 key cache -/
+
+def sp0 : Slot := ⟨.sp, 0⟩
+
+/-- **cache_storage_independent.** The storage (every key file, history directory, temporary) and the
+generation counters after any run – destroy-current included – are the same for every cache size
+(`-1` none, `0` unbounded, `n` bounded): write operations compute their storage calls from the storage
+alone. -/
+theorem cache_storage_independent (c : Int) (ops : List Op) :
+    ((V1.init c).run ops).1.fs = ((V1.init (-1)).run ops).1.fs ∧
+    ((V1.init c).run ops).1.count = ((V1.init (-1)).run ops).1.count :=
+  V1.run_fs ops _ _ rfl rfl
+
+/-- **cache_write_obs_independent.** The outcome of generate, destroy-current, destroy-rotated and
+the two listings never depends on the cache contents. -/
+theorem cache_write_obs_independent (st su : V1) (o : Op) (hfs : st.fs = su.fs) (hcnt : st.count = su.count)
+    (ho : o.isRead = false) : (st.step o).2 = (su.step o).2 :=
+  V1.step_obs_write st su o hfs hcnt ho
+
+/-- **cache_coherent_step.** From a state whose cache is coherent with the storage (`V1.Coh`; an
+empty cache is), any operation other than generate and destroy-current keeps the cache coherent and
+shows exactly what the store without cache shows on the same storage – for every cache size, with
+evictions. -/
+theorem cache_coherent_step (st : V1) (o : Op) (hc : st.Coh) (ho : o.keepsCoh = true) :
+    (st.step o).1.Coh ∧ (st.step o).2 = (V1.step ⟨st.fs, none, st.count⟩ o).2 :=
+  V1.step_coh st o hc ho
+
+/-- **cache_reset_exact.** For every cache size `c`, every history `h` (any operations, destroy-current
+included) and every continuation `rs` made of reads (current, public, all), listings, destroy-rotated,
+resets and reopens: after `Reset`, the cached store shows on `rs` exactly what the store without
+cache shows after the same history. Together with `v1_refines_spec` (for `h` without destroy-current)
+these are the specification's observations. The continuation must not generate or destroy-current:
+see `cache_stale_after_rotation_counterexample`. -/
+theorem cache_reset_exact (c : Int) (h rs : List Op) (hrs : ∀ o ∈ rs, o.keepsCoh = true) :
+    ((((V1.init c).run h).1.step .reset).1.run rs).2 = (((V1.init (-1)).run h).1.run rs).2 := by
+  obtain ⟨hfs, hcnt⟩ := cache_storage_independent c h
+  exact V1.run_coh rs (((V1.init c).run h).1.step .reset).1 ((V1.init (-1)).run h).1 hfs hcnt (V1.Coh.clear _)
+    (V1.Coh.of_nocache (V1.run_sim_cache_none h (V1.init (-1)) rfl)) hrs
+
+/-- **cache_stale_after_rotation_counterexample.** Why `cache_reset_exact` stops at the next
+generation: the handle that rotates a key keeps serving what it cached before.
+(1) symmetric key: `C06.v1 0 g:ss0 x c:ss0 g:ss0 c:ss0 a:ss0` → `…|ok:1|ok:1.1` – the old key stays
+current and the new key 2 is not offered at all (without cache: `ok:2|ok:2.1`);
+(2) storage public key: `C06.v1 0 g:sp0 x p:sp0 g:sp0 p:sp0 c:sp0` → public key 1 with private key 2;
+(3) a destroyed rotated key that is cached as "current" is still offered:
+`C06.v1 0 g:ss0 g:ss0 g:ss0 x c:ss0 g:ss0 dr:ss0:4 a:ss0 x a:ss0` → `ok:3.2.1` then `ok:4.2.1`.
+All three heal at `Reset` and none makes a surviving key that was offered disappear (`cache_monotone`). -/
+theorem cache_stale_after_rotation_counterexample :
+    ((V1.init 0).run [.gen ss0, .reset, .cur ss0, .gen ss0, .cur ss0, .all ss0]).2 = [.ok, .ok, .key 1, .ok, .key 1, .keys [1, 1]] ∧
+    ((V1.init (-1)).run [.gen ss0, .reset, .cur ss0, .gen ss0, .cur ss0, .all ss0]).2 = [.ok, .ok, .key 1, .ok, .key 2, .keys [2, 1]] ∧
+    ((V1.init 0).run [.gen sp0, .reset, .pub sp0, .gen sp0, .pub sp0, .cur sp0]).2 = [.ok, .ok, .key 1, .ok, .key 1, .key 2] ∧
+    ((V1.init 0).run [.gen ss0, .gen ss0, .gen ss0, .reset, .cur ss0, .gen ss0, .drot ss0 4, .all ss0, .reset, .all ss0]).2 =
+      [.ok, .ok, .ok, .ok, .key 3, .ok, .ok, .keys [3, 2, 1], .ok, .keys [4, 2, 1]] := by decide +kernel
 
 /-! ## non-vacuity -/
 
